@@ -49,7 +49,7 @@ def _int(ctx):
     return stubs.sint if ctx.symbolic else builtins.int
 
 
-@harness("C10.roundtrip")
+@harness("C10.roundtrip", raises_are_violations=True)
 def roundtrip(ctx, p):
     net, nl, el, c = _build(ctx, p, attrs=p.get("attrs", True))
     how = p["how"]
@@ -133,7 +133,7 @@ def _multiset(A, B):
     return multiset_eq([set(x) for x in A], [set(x) for x in B])
 
 
-@harness("C10.cross")
+@harness("C10.cross", raises_are_violations=True)
 def cross(ctx, p):
     """Building a network of one class from a network of another."""
     net, nl, el, c = _build(ctx, p, attrs=p.get("attrs", True))
@@ -170,7 +170,7 @@ def cross(ctx, p):
     ctx.require(nets.same(src, nets.snap(net)), "class conversion changed its input")
 
 
-@harness("C10.bipartite_order")
+@harness("C10.bipartite_order", raises_are_violations=True)
 def bipartite_order(ctx, p):
     """from_bipartite_graph does not depend on the order in which the vertices
     and links of the input graph were inserted."""
